@@ -163,7 +163,7 @@ void c07_run(Tape& t, Ctx& ctx, Opt& opt, const TM& tm, const Problem& p, unsign
     opt.setEnergyWeights(rho_eff);
     (void)z;
   }
-  const ld noise_rel = S == 2 ? 1e-14L : (S == 3 ? 1e-13L : 1e-11L);  // rounding level of the returned cost relative to the sum of its pieces
+  const ld noise_rel = S == 2 ? 1e-14L : (S == 3 ? 1e-13L : 3e-9L);  // rounding level of the returned cost relative to the sum of its pieces (septic: 3e-10 measured, s8 T22)
   ld ginf = 0; for (int i = 0; i < n; ++i) ginf = std::max(ginf, fabsl((ld)g(i)));
   ld scale = ginf + 1e-3L * fabsl((ld)c0);
   auto cost_at = [&](const Eigen::VectorXd& y) { Eigen::VectorXd gg; return (ld)opt.evaluate(y, gg, costs.tc, costs.wc, costs.rc, &ws); };
